@@ -314,6 +314,14 @@ def run(G, pid=None):
     extra['coverage']['conformance_build'] = c
     if not c['ok']:
         extra['tool'].append('conformance build failed (prelude drifted from the real APIs?): %s' % c['output'][-400:])
+    from . import sampling
+    try:
+        sm = sampling.run()
+    except Exception as e:
+        sm = {'clauses': [], 'contradicted': [], 'skipped': ['sampling could not run: %s' % str(e)[:200]], 'n_clauses': 0}
+    extra['coverage']['assumption_sampling'] = dict(sm, label='sampling against the sandbox kernel, not proof')
+    if sm['contradicted']:
+        extra['tool'].append('an assumed kernel contract is contradicted by this kernel: %s' % sm['contradicted'][:3])
     try:
         k = kani_leaves()
     except Exception as e:  # timeouts etc.
